@@ -209,4 +209,30 @@ def fieldsOf (kc : Bool) (a : PAtom) : Fields :=
     x := decOfFix 3 a.x, y := decOfFix 3 a.y, z := decOfFix 3 a.z,
     q := decOfOptFix4 a.q, r := decOfOptFix4 a.r }
 
+deriving instance DecidableEq for Except
+
+/-! ### the domain on which the round trip holds (decidable; mirrored by the harness) -/
+
+/-- no ASCII whitespace inside -/
+def clean (s : Str) : Bool := s.all (fun c => !isWs c)
+
+/-- the atom fits the fixed columns -/
+def Fits (a : PAtom) : Bool :=
+  (a.type = str "ATOM" || a.type = str "HETATM") &&
+  (0 ≤ a.serial && a.serial < 100000) &&
+  (1 ≤ a.name.length && a.name.length ≤ 4 && clean a.name) &&
+  (1 ≤ a.resName.length && a.resName.length ≤ 4 && clean a.resName) &&
+  (a.chain.length ≤ 1 && clean a.chain) &&
+  (-999 ≤ a.resSeq && a.resSeq ≤ 9999) &&
+  (a.ins.length ≤ 1 && clean a.ins) &&
+  ((fmtFix 3 a.x).length ≤ 8 && (fmtFix 3 a.y).length ≤ 8 && (fmtFix 3 a.z).length ≤ 8) &&
+  ((optFix4 a.q).length ≤ 8 && (optFix4 a.r).length ≤ 7)
+
+/-- … and its tokens stay apart in the `--whitespace` layout and are read
+unambiguously by pdb2pqr's own reader -/
+def FitsWs (kc : Bool) (a : PAtom) : Bool :=
+  Fits a && a.ins = [] &&
+  (!(kc && a.chain ≠ []) || ((intStr a.resSeq).length ≤ 3 && !(a.chain.all Char.isDigit))) &&
+  ((optFix4 a.q).length ≤ 7 && (optFix4 a.r).length ≤ 6)
+
 end P2P.Pqr
